@@ -16,8 +16,6 @@ use proto_vulcan::relation as rel;
 use proto_vulcan::relation::diseq::DisequalityConstraint;
 use proto_vulcan::state::FiniteDomain;
 
-pub type DU = DefaultUser;
-pub type DE = DefaultEngine<DefaultUser>;
 
 #[derive(Clone, Debug, PartialEq)]
 pub enum D {
@@ -76,6 +74,8 @@ pub enum PG {
     DistinctFd(T),
     PlusZ(T, T, T),
     TimesZ(T, T, T),
+    /// a goal that succeeds once and records the user state / constraint store it sees (C22)
+    Probe,
 }
 
 fn toks_goals(gs: &[PG], out: &mut String) {
@@ -181,6 +181,7 @@ impl PG {
                 a.toks(out)
             }
             PG::PlusZ(a, b, c) => t3("plusz", a, b, c, out),
+            PG::Probe => out.push_str("probe "),
             PG::TimesZ(a, b, c) => t3("timesz", a, b, c, out),
         }
     }
@@ -244,6 +245,7 @@ impl PG {
             "diseqfd" => PG::DiseqFd(T::parse(t), T::parse(t)),
             "distinctfd" => PG::DistinctFd(T::parse(t)),
             "plusz" => PG::PlusZ(T::parse(t), T::parse(t), T::parse(t)),
+            "probe" => PG::Probe,
             "timesz" => PG::TimesZ(T::parse(t), T::parse(t), T::parse(t)),
             other => panic!("bad goal token {}", other),
         }
@@ -359,8 +361,46 @@ pub fn build<K: Kind>(g: &PG, vars: &mut Vars) -> K {
         PG::DiseqFd(a, b) => rel::diseqfd::<DU, DE, K>(t!(a), t!(b)).cast_into(),
         PG::DistinctFd(a) => rel::distinctfd::<DU, DE, K>(t!(a)).cast_into(),
         PG::PlusZ(a, b, c) => rel::plusz::<DU, DE, K>(t!(a), t!(b), t!(c)).cast_into(),
+        PG::Probe => probe_goal::<K>(false, vec![]),
         PG::TimesZ(a, b, c) => rel::timesz::<DU, DE, K>(t!(a), t!(b), t!(c)).cast_into(),
     }
+}
+
+/// what a probe goal saw
+pub struct ProbeRec {
+    pub last: bool,
+    pub withs: usize,
+    pub takes: usize,
+    pub stored: usize,
+    pub ext_calls: usize,
+    pub ext_total: usize,
+    pub smap_len: usize,
+    pub terms: Vec<LT>,
+}
+
+thread_local! {
+    pub static PROBES: std::cell::RefCell<Vec<ProbeRec>> = std::cell::RefCell::new(vec![]);
+}
+
+/// a goal that succeeds exactly once (`Stream::unit(state)`) and records what it sees
+pub fn probe_goal<K: Kind>(last: bool, qvars: Vec<LT>) -> K {
+    use proto_vulcan::operator::fngoal::FnGoal;
+    use proto_vulcan::stream::Stream;
+    FnGoal::new::<K>(Box::new(move |_solver, state| {
+        let rec = ProbeRec {
+            last,
+            withs: state.user_state.withs,
+            takes: state.user_state.takes,
+            stored: state.cstore_ref().iter().count(),
+            ext_calls: state.user_state.ext_calls,
+            ext_total: state.user_state.ext_total,
+            smap_len: state.smap_ref().iter().count(),
+            terms: qvars.iter().map(|q| state.smap_ref().walk_star(q)).collect(),
+        };
+        PROBES.with(|p| p.borrow_mut().push(rec));
+        Stream::unit(Box::new(state))
+    }))
+    .cast_into()
 }
 
 pub struct QR(pub Vec<LResult<DU, DE>>);
@@ -381,13 +421,19 @@ pub struct Prog {
     pub raw: bool,
 }
 
+thread_local! {
+    /// counter mode (C22): the query gets a final probe after `reify`; the observable is the sorted list of
+    /// (answer terms, with_constraint calls, take_constraint calls, stored constraints) the final probes saw
+    pub static CNT_MODE: std::cell::Cell<u8> = std::cell::Cell::new(0);
+}
+
 impl Prog {
     pub fn line(&self) -> String {
         self.line_f(0)
     }
     /// the case line with the model's step fuel (0 = the driver's default)
     pub fn line_f(&self, fuel: u64) -> String {
-        let flags = if self.raw { "raw" } else { "-" };
+        let flags = if self.raw { "raw" } else { match CNT_MODE.with(|c| c.get()) { 1 => "cnt", 2 => "cnd", _ => "-" } };
         let flags = if fuel > 0 { format!("{}:{}", flags, fuel) } else { flags.to_string() };
         let mut s = format!("prog {} {} {} {} ", self.nvars, self.nq, self.take, flags);
         for g in &self.body {
@@ -417,6 +463,8 @@ pub struct Ans {
     pub constraints: Vec<Vec<(T, T)>>,
     pub relevant: Vec<Vec<usize>>,
     pub constrained: Vec<bool>,
+    /// counter mode: (with_constraint calls, take_constraint calls, stored constraints) at the answer
+    pub counters: Option<(usize, usize, usize)>,
 }
 
 pub fn universe8() -> Vec<T> {
@@ -512,7 +560,10 @@ impl Ans {
                 truth_table(&order, &cs)
             })
             .collect();
-        format!("{} @ {} @ {}", show_tuple(&can), tt, rel.join(" "))
+        match self.counters {
+            Some((w, t, st)) => format!("{} @ {} @ {} @ {} {} {}", show_tuple(&can), tt, rel.join(" "), w, t, st),
+            None => format!("{} @ {} @ {}", show_tuple(&can), tt, rel.join(" ")),
+        }
     }
 }
 
@@ -557,7 +608,7 @@ pub fn run_raw_b(p: &Prog, budget: u64) -> RunOut {
     proto_vulcan::verif::set_budget(budget);
     let r = crate::catch(|| {
         let mut solver: Solver<DU, DE> = Solver::new((), false);
-        let mut stream = solver.start(&goal, State::new(DU::new()));
+        let mut stream = solver.start(&goal, State::new(DU::default()));
         let mut more = false;
         loop {
             if take > 0 && answers.len() == take {
@@ -570,7 +621,7 @@ pub fn run_raw_b(p: &Prog, budget: u64) -> RunOut {
                     let mut rd = Reader::new(&vars);
                     let terms: Vec<T> = qvars.iter().map(|q| rd.read(&state.smap_ref().walk_star(q))).collect();
                     let n = terms.len();
-                    answers.push(Ans { terms, constraints: vec![], relevant: vec![vec![]; n], constrained: vec![false; n] });
+                    answers.push(Ans { terms, constraints: vec![], relevant: vec![vec![]; n], constrained: vec![false; n], counters: None });
                 }
             }
         }
@@ -614,12 +665,30 @@ pub fn run_prog_b(p: &Prog, budget: u64) -> RunOut {
         ])),
     )
     .cast_into();
-    let query: Query<QR> = Query::new(qvars.clone(), goal);
+    let cntm = CNT_MODE.with(|c| c.get());
+    let cnt = cntm != 0;
+    let goal: Goal<DU, DE> = if cnt {
+        // the same query with a final probe after `reify`
+        Fresh::new(
+            vec![query_var.clone()],
+            GoalCast::cast_into(InferredConj::from_array(&[
+                GoalCast::cast_into(rel::eq::eq(query_var.clone(), LT::from_array(&qvars))),
+                proto_vulcan::operator::conj::Conj::from_array(&goals),
+                proto_vulcan::state::reify(query_var.clone()),
+                probe_goal::<Goal<DU, DE>>(true, qvars.clone()),
+            ])),
+        )
+        .cast_into()
+    } else {
+        goal
+    };
+    PROBES.with(|p| p.borrow_mut().clear());
+    let query: Query<QR, DU, DE> = Query::new(qvars.clone(), goal);
     let mut answers: Vec<Ans> = vec![];
     let take = p.take;
     proto_vulcan::verif::set_budget(budget);
     let r = crate::catch(|| {
-        let mut iter = query.run();
+        let mut iter = query.run_with_user(DU::default(), ());
         let mut more = false;
         loop {
             if take > 0 && answers.len() == take {
@@ -635,6 +704,23 @@ pub fn run_prog_b(p: &Prog, budget: u64) -> RunOut {
     });
     LAST_TICKS.with(|c| c.set(proto_vulcan::verif::steps()));
     proto_vulcan::verif::set_budget(u64::MAX);
+    if cnt {
+        // counter mode: one record per FINAL probe (answer terms as the probe saw them + counters), sorted
+        let mut recs: Vec<Ans> = PROBES.with(|p| {
+            p.borrow()
+                .iter()
+                .filter(|r| r.last)
+                .map(|r| {
+                    let mut rd = Reader::new(&vars);
+                    let terms: Vec<T> = r.terms.iter().map(|t| rd.read(t)).collect();
+                    let n = terms.len();
+                    Ans { terms, constraints: vec![], relevant: vec![vec![]; n], constrained: vec![false; n], counters: Some(if cntm == 1 { (r.withs, r.takes, r.stored) } else { (r.withs.saturating_sub(r.takes), 0, r.stored) }) }
+                })
+                .collect()
+        });
+        recs.sort_by_key(|a| a.show(""));
+        answers = recs;
+    }
     match r {
         Ok(more) => RunOut::Answers(answers, more),
         Err(site) if site == "BUDGET" => RunOut::Budget(answers),
@@ -672,7 +758,7 @@ pub fn read_answer(vars: &Vars, results: &[LResult<DU, DE>]) -> Ans {
         relevant.push(idx);
         constrained.push(r.is_constrained());
     }
-    Ans { terms, constraints, relevant, constrained }
+    Ans { terms, constraints, relevant, constrained, counters: None }
 }
 
 /// the observable line of a run, in the driver's format (counters are 0 for DefaultUser)
